@@ -243,7 +243,10 @@ def rule_e(ctx):
             ok = any(am.eq(fx, g) for g in good)
             if not ok and not any(isinstance(c, ast.Call) and norm(c.func) in ("np.kron", "np.tile", "np.repeat", "np.outer") for c in ast.walk(fx)):
                 raise AnalysisError(f"{f.qname}: unrecognised broadcasting idiom `{desc}` in the array-weight branch")
-    ctx.ob(R, f.qname, "array weight: every voxel is multiplied by the weight array itself (outer product with ones, reshaped to the data shape)", ok, desc, arms[0])
+    # named contradiction: np.kron(ones, w) is the block layout (w's entries are repeated block-wise, not voxel-wise) -- reshaped to the
+    # data shape it permutes the entries of a weight with more than one axis
+    kron = factor is not None and any(isinstance(c, ast.Call) and norm(c.func) == "np.kron" for c in ast.walk(fx)) if len(muls) == 1 else False
+    ctx.ob(R, f.qname, "array weight: every voxel is multiplied by the weight array itself (outer product with ones, reshaped to the data shape)", ok, desc, arms[0], evidence=bool(kron))
     ctx.floor(R, 1)
 
 
